@@ -21,12 +21,13 @@ pub struct Tol {
     pub neg_area: f64,
     pub l: f64,
     pub mag: f64,
+    pub dim: usize,
 }
 
 pub fn tol(st: &State) -> Tol {
     let l = st.l_max();
     let mag = st.mag();
-    Tol { pos: 1e-9 * mag, neg_area: 1e-9 * l.powi(st.dim as i32 - 1), l, mag }
+    Tol { pos: 1e-9 * mag, neg_area: 1e-9 * l.powi(st.dim as i32 - 1), l, mag, dim: st.dim }
 }
 
 pub fn replay_text(check: &str, st: &State, extra: &[(&str, String)]) -> String {
@@ -109,7 +110,22 @@ pub fn sigma_min<M: meshless_voronoi::ConvexCellMarker>(cell: &meshless_voronoi:
             s = d;
         }
     }
-    s.max(1e-6)
+    s.max(1e-13)
+}
+
+/// Position tolerance for a cell whose worst vertex conditioning is `sigma`: the generous 1e-9 * magnitude
+/// for well conditioned cells, 256 u / sigma * magnitude when that is larger (rounding amplified by conditioning).
+pub fn pos_for(t: &Tol, sigma: f64) -> f64 {
+    t.mag * (1e-9f64).max(5.7e-14 / sigma.max(1e-13))
+}
+
+/// Conditioning of every constructed cell (1.0 for unconstructed ones).
+pub fn sigmas<M: meshless_voronoi::ConvexCellMarker + 'static>(integ: &VoronoiIntegrator<M>, n: usize) -> Vec<f64> {
+    (0..n).map(|i| integ.get_cell_at(i).map(sigma_min).unwrap_or(1.0)).collect()
+}
+
+pub fn sigma_all(s: &[f64]) -> f64 {
+    s.iter().copied().fold(1.0, f64::min)
 }
 
 pub struct CellTol {
@@ -120,8 +136,9 @@ pub struct CellTol {
 }
 
 pub fn cell_tol(t: &Tol, oc: &OCell, sigma: f64) -> CellTol {
-    let pos = t.pos / sigma.min(1.0);
-    let vol = pos * oc.surface + 1e-12 * oc.volume.abs();
+    let pos = pos_for(t, sigma);
+    // absolute floor: signed tetrahedra of the size of the cell cancel, in global coordinates
+    let vol = pos * oc.surface + 1e-12 * oc.volume.abs() + 1e-13 * t.l.powi(t.dim as i32);
     let diam = 2. * oc.max_vertex_dist;
     let centroid = 4. * pos * (1. + oc.surface * diam / oc.volume.abs().max(1e-300));
     CellTol { pos, vol, centroid, compare_centroid: oc.volume > 100. * vol }
@@ -135,7 +152,7 @@ pub struct FaceTol {
 }
 
 pub fn face_tol(t: &Tol, of: &OFace, pos: f64) -> FaceTol {
-    let area = pos * of.perimeter + 1e-12 * of.area.abs();
+    let area = pos * of.perimeter + 1e-12 * of.area.abs() + 1e-13 * t.l.powi(t.dim as i32 - 1);
     let centroid = 4. * pos * (1. + of.perimeter * of.perimeter * 0.5 / of.area.abs().max(1e-300));
     FaceTol { area, centroid, compare_centroid: of.area > 100. * area, negligible: of.area <= t.neg_area + area }
 }
@@ -156,7 +173,10 @@ pub fn compare_cell_with_oracle(
     lib_faces: Option<&LibCellFaces>,
     lib_vertices: Option<(&[DVec3], f64)>,
 ) {
+    let lib_planes: Option<&[(DVec3, DVec3)]> = None;
+    let _ = lib_planes;
     let sigma = lib_vertices.map(|v| v.1).unwrap_or(1.0);
+    let lib_vertices = lib_vertices.filter(|v| !v.0.is_empty());
     let ct = cell_tol(t, oc, sigma);
     let rp = || replay_text(check, st, extra);
     if !(lib_volume.is_finite() && all_finite(lib_centroid)) {
@@ -180,18 +200,43 @@ pub fn compare_cell_with_oracle(
         );
     }
     if let Some((verts, sig)) = lib_vertices {
-        let vt = 10. * t.pos / sig.min(1.0);
-        for v in verts {
-            let d = oc.verts.iter().map(|u| u.distance(*v)).fold(f64::INFINITY, f64::min);
-            if !(d <= vt) {
-                e.issue("vertex-not-in-oracle", case, format!("cell {}: library vertex {} is {:e} from the nearest oracle vertex (tol {:e})", i, fmt_vec(*v), d, vt), rp());
-                break;
+        let vt = 10. * pos_for(t, sig);
+        // (1) every library vertex lies in the (tolerance-fattened) oracle polytope
+        'lv: for v in verts {
+            for of in &oc.faces {
+                let sdist = of.normal.dot(*v - of.verts[0]);
+                if !(sdist <= vt) {
+                    e.issue("vertex-outside-oracle-cell", case, format!("cell {}: library vertex {} lies {:e} outside oracle face {} (tol {:e})", i, fmt_vec(*v), sdist, of.key.describe(), vt), rp());
+                    break 'lv;
+                }
             }
         }
+        // (2) every *essential* oracle vertex (a real corner: not collinear with its polygon neighbours in
+        // every non-negligible face, which is what the middle vertex of a sliver is) has a library vertex nearby
         for u in &oc.verts {
             let d = verts.iter().map(|v| u.distance(*v)).fold(f64::INFINITY, f64::min);
-            if !(d <= vt) {
-                e.issue("oracle-vertex-missing", case, format!("cell {}: oracle vertex {} is {:e} from the nearest library vertex (tol {:e})", i, fmt_vec(*u), d, vt), rp());
+            if d <= vt {
+                continue;
+            }
+            let mut essential = false;
+            for of in &oc.faces {
+                let m = of.verts.len();
+                if of.area <= t.neg_area + vt * of.perimeter {
+                    continue;
+                }
+                for k in 0..m {
+                    if of.verts[k].distance(*u) <= 1e-13 * t.mag + 1e-12 * u.distance(oc.gen) {
+                        let (a, b) = (of.verts[(k + m - 1) % m], of.verts[(k + 1) % m]);
+                        let ab = b - a;
+                        let tt = if ab.length_squared() > 0. { ((*u - a).dot(ab) / ab.length_squared()).clamp(0., 1.) } else { 0. };
+                        if (a + ab * tt).distance(*u) > vt {
+                            essential = true;
+                        }
+                    }
+                }
+            }
+            if essential {
+                e.issue("oracle-vertex-missing", case, format!("cell {}: oracle corner {} is {:e} from the nearest library vertex (tol {:e})", i, fmt_vec(*u), d, vt), rp());
                 break;
             }
         }
